@@ -199,6 +199,7 @@ func main() {
 	}
 	runtime.GOMAXPROCS(runtime.NumCPU())
 	fox.VerifSetPoint(nil)
+	methodFlip(run)
 	run.Count("operations_recorded", totalOps)
 	run.Count("reads_overlapping_a_committed_write_same_key", contended)
 	run.Count("distinct_history_signatures", int64(len(sigs)))
@@ -648,4 +649,85 @@ func joinLines(l []string) string {
 		b.WriteByte('\n')
 	}
 	return b.String()
+}
+
+// methodFlip: request routing takes effect atomically also on the method-not-allowed / automatic OPTIONS branches.
+// A transaction moves one path between GET and POST; every committed version serves GET with 200 or answers 405 with
+// Allow: POST - a GET must never see 404, an empty or a mixed Allow (one request, one version of the tree).
+func methodFlip(run *kit.Run) {
+	rounds := run.Pick(8, 100)
+	var served, bad atomic.Int64
+	for round := 0; round < rounds; round++ {
+		f, err := fox.New(fox.WithNoMethod(true), fox.WithAutoOptions(true))
+		if err != nil {
+			run.Inconclusive("fox.New: %v", err)
+			return
+		}
+		h := func(c fox.Context) { c.Writer().WriteHeader(200) }
+		f.MustHandle("GET", "/m/{id}", h)
+		f.MustHandle("PUT", "/other", h)
+		var stop atomic.Bool
+		var wg sync.WaitGroup
+		wg.Add(1)
+		go func() {
+			defer wg.Done()
+			from, to := "GET", "POST"
+			for i := 0; i < 400 && !stop.Load(); i++ {
+				_ = f.Updates(func(txn *fox.Txn) error {
+					if _, err := txn.Delete(from, "/m/{id}"); err != nil {
+						return err
+					}
+					_, err := txn.Handle(to, "/m/{id}", h)
+					return err
+				})
+				from, to = to, from
+			}
+			stop.Store(true)
+		}()
+		for rd := 0; rd < 6; rd++ {
+			wg.Add(1)
+			go func(rd int) {
+				defer wg.Done()
+				for !stop.Load() {
+					w := &flipW{h: http.Header{}}
+					method := []string{"GET", "POST", "OPTIONS"}[rd%3]
+					f.ServeHTTP(w, &http.Request{Method: method, URL: &url.URL{Path: "/m/7"}, Header: http.Header{}, Proto: "HTTP/1.1", ProtoMajor: 1, ProtoMinor: 1})
+					served.Add(1)
+					allow := w.h.Get("Allow")
+					other := map[string]string{"GET": "POST", "POST": "GET"}[method]
+					ok := false
+					switch {
+					case method == "OPTIONS":
+						ok = w.status != 404 && (allow == "GET, OPTIONS" || allow == "POST, OPTIONS")
+					case w.status == 200 && allow == "":
+						ok = true
+					case w.status == 405 && (allow == other || allow == other+", OPTIONS"):
+						ok = true
+					}
+					if !ok {
+						bad.Add(1)
+						stop.Store(true)
+						run.Violate(fmt.Sprintf("torn-routing|round=%d", round), fmt.Sprintf("%s /m/7 answered status=%d Allow=%q while a transaction moves the route between GET and POST: every committed version gives 200 or 405 with the other method", method, w.status, allow), map[string]any{"round": round, "method": method, "status": w.status, "allow": allow})
+					}
+				}
+			}(rd)
+		}
+		wg.Wait()
+		run.Case(fmt.Sprintf("method-flip|%d", round), true)
+	}
+	run.Count("method_flip_requests", served.Load())
+	run.Count("method_flip_torn", bad.Load())
+}
+
+type flipW struct {
+	h      http.Header
+	status int
+}
+
+func (w *flipW) Header() http.Header         { return w.h }
+func (w *flipW) Write(b []byte) (int, error) { return len(b), nil }
+func (w *flipW) WriteHeader(c int) {
+	if w.status == 0 {
+		w.status = c
+	}
 }
